@@ -1105,8 +1105,14 @@ func dirtyXRHeaders(r *Rng, p rtcp.Packet) rtcp.Packet {
 		return p
 	}
 	for i, b := range x.Reports {
-		if _, unk := b.(*rtcp.UnknownReportBlock); unk || b == nil {
-			continue // an opaque block's type and type-specific octet are its content
+		if u, unk := b.(*rtcp.UnknownReportBlock); unk || b == nil {
+			// an opaque block's type and type-specific octet are its content; its length field is an output like any other
+			if unk && u != nil {
+				c := *u
+				c.XRHeader.BlockLength = uint16(r.Bits(16, 16))
+				x.Reports[i] = &c
+			}
+			continue
 		}
 		hdr, omits, vals, elems := xrParts(b)
 		hdr.TypeSpecific = rtcp.TypeSpecificField(r.Bits(8, 8))
